@@ -137,6 +137,15 @@ class FindInAll(Finder):  # noqa
             else:
                 warning(f"No Finder configured for {search_sid}. Skipped from search.")
 
+        # A "last" search (">") has one answer per group, however many Finders or typed searches serve it.
+        # Each Finder answers for its own searches only: their answers are reduced again here.
+        last_index = None
+        for search_sid in search_sids:
+            if ">" in str(search_sid).split("/"):
+                last_index = str(search_sid).split("/").index(">")
+                break
+        last_by_group: Dict[tuple, List[str]] = {}
+
         done = set()
         for finder, searches in finder_to_searches.items():
 
@@ -147,13 +156,24 @@ class FindInAll(Finder):  # noqa
                 # FIXME: why is data so often repeated, "if in done" is expensive, optimize
                 if i not in done:
                     done.add(i)
-                    if as_sid:
+                    if last_index is not None:
+                        parts = str(i).split("/")
+                        group = tuple(parts[:last_index])
+                        if group not in last_by_group or parts > last_by_group[group]:
+                            last_by_group[group] = parts
+                    elif as_sid:
                         yield Sid(i)
                     else:
                         yield i
 
             else:
                 debug(f'Nothing found for "{search_sid.uri}"')
+
+        for parts in last_by_group.values():
+            if as_sid:
+                yield Sid("/".join(parts))
+            else:
+                yield "/".join(parts)
 
     def __str__(self):
         return f'[spil.{self.__class__.__name__} -- Config: "{self.config}"]'
